@@ -12,7 +12,7 @@ From Coq Require Import List ZArith Bool.
 From Coq Require Export Uint63.
 Require Import MTX.Lib.IntWrap.
 Require Export MTX.Model.C23_RtpH264 MTX.Model.C23_RtpGlue.
-Require Export MTX.Model.C23_RtpH265 MTX.Model.C23_RtpAudio MTX.Model.C23_RtpGlueInst.
+Require Export MTX.Model.C23_RtpH265 MTX.Model.C23_RtpAudio MTX.Model.C23_RtpGlueInst MTX.Model.C23_RtpLife.
 Import ListNotations.
 Local Open Scope Z_scope.
 
@@ -31,10 +31,21 @@ Inductive sres :=
 | SErr
 | SPanic.
 
-(* one unit: PTS, incoming packets, did the incoming rtpDecoder fail, delivered payload (canonical list of byte
-   strings; None = nil payload), expected per-packet timestamp increments (Opus; [] = all zero), result *)
-Inductive step := Step (pts : Z) (inp : list packet) (decerr : bool) (deliv : option (list bytes))
-                       (deltas : list Z) (r : sres).
+(* what the per-format state of the Stream (streamFormat.rtpEncoder / rtpTimeOffset) is after a
+   subStreamFormat.initialize: Some (SSRC, the encoder's CURRENT sequence number, rtpTimeOffset), None = no encoder;
+   NErr = initialize returned an error (the sub stream is not installed) *)
+Inductive nres := NOk (st : option (Z * Z * Z)) | NErr.
+
+(* Step - one unit: PTS handed to writeUnit, u.PTS as delivered to the readers (= the former + ptsOffset on an
+   always-available stream), incoming packets, did the incoming rtpDecoder fail, delivered payload (canonical list of
+   byte strings; None = nil payload), expected per-packet timestamp increments (Opus; [] = all zero), result.
+   NewSub - a new sub stream of the same Stream was initialised (SubStream.Initialize -> subStreamFormat.initialize +
+   initialize2): RTP publisher?, newRTPDecoder succeeded?, firstTimeReceived, streamFormat.ptsOffset afterwards, and
+   the observed per-format state afterwards. *)
+Inductive step :=
+| Step (ipts pts : Z) (inp : list packet) (decerr : bool) (deliv : option (list bytes))
+       (deltas : list Z) (r : sres)
+| NewSub (use_rtp dec_ok first : bool) (ptsoff : Z) (r : nres).
 
 (* fmt: 0 = H264 (modelled); 16 = FLAC (rtpEncoderEmpty: no packets by design); others differential only.
    avail: newRTPEncoder knows the format. bytejoin: the decoder returns the samples of each packet, the unit
@@ -44,6 +55,11 @@ Inductive case :=
 | CScen (fmt max : Z) (avail bytejoin : bool) (init : option (Z * Z * Z)) (steps : list step)
 (* the same with the parameters of rtplpcm: bit depth and channel count (0 0 for the other formats) *)
 | CScenP (bits chans : Z) (fmt max : Z) (avail bytejoin : bool) (init : option (Z * Z * Z)) (steps : list step)
+(* the whole life of one format of one Stream: alwaysAvailable / forceRemux flags of the streamFormat, init = the
+   per-format state before the first step (None = no encoder yet: the first step is the NewSub of the first sub
+   stream), steps = sub stream initialisations and units in the order they happened *)
+| CLife (aa fr : bool) (bits chans : Z) (fmt max : Z) (avail bytejoin : bool) (init : option (Z * Z * Z))
+        (steps : list step)
 (* conf.Load on "udpMaxPayloadSize: u": accepted? *)
 | CConf (probes : list (Z * bool)).
 
@@ -64,62 +80,8 @@ Definition pkt_eqb (a b : packet) : bool :=
   (a.(p_seq) =? b.(p_seq)) && (a.(p_ts) =? b.(p_ts)) && Bool.eqb a.(p_marker) b.(p_marker)
   && (a.(p_ssrc) =? b.(p_ssrc)) && bytes_eqb a.(p_payload) b.(p_payload).
 
-(* ---- running the model (H.264) ---- *)
-Definition pobs_of (o : dout) : option pobs :=
-  match o with
-  | DOk au => Some (POk au)
-  | DMore | DNoPrev => Some PMore          (* rtpDecoderH264.decode maps both to (nil, nil) *)
-  | DErr => Some PErr
-  | DAnnexB => None                        (* outside the model: comparison stops *)
-  end.
-
-(* compare the decoder model with the observations; None = the model left its domain *)
-Fixpoint dec_agree (d : dec) (pkts : list packet) (obs : list pobs) : option (bool * dec) :=
-  match pkts, obs with
-  | [], [] => Some (true, d)
-  | p :: pr, o :: or =>
-      let '(d1, mo) := decode d p in
-      match pobs_of mo with
-      | None => None
-      | Some (POk au) =>
-          match o with
-          | POk au' => if list_eqb bytes_eqb au au' then dec_agree d1 pr or else Some (false, d1)
-          | _ => Some (false, d1)
-          end
-      | Some PMore => match o with PMore => dec_agree d1 pr or | _ => Some (false, d1) end
-      | Some PErr => match o with PErr => dec_agree d1 pr or | _ => Some (false, d1) end
-      end
-  | _, _ => Some (false, d)
-  end.
-
-Fixpoint h264_agree (max : Z) (avail : bool) (g : gstate) (d : option dec) (steps : list step) : bool :=
-  match steps with
-  | [] => true
-  | Step pts inp decerr deliv _ r :: rest =>
-      match h264_glue_write max avail g pts inp decerr deliv, r with
-      | GPanic, SPanic => true
-      | GErr g', SErr => h264_agree max avail g' d rest
-      | GOk g' out, SOk out' obs =>
-          list_eqb pkt_eqb out out' &&
-          match g'.(g_enc), d with
-          | Some _, Some d0 =>               (* re-encoded packets go through the decoder model *)
-              match dec_agree d0 out' obs with
-              | Some (ok, d1) => ok && h264_agree max avail g' (Some d1) rest
-              | None => h264_agree max avail g' None rest
-              end
-          | _, _ => h264_agree max avail g' d rest
-          end
-      | _, _ => false
-      end
-  end.
-
-Definition init_g (max : Z) (init : option (Z * Z * Z)) : gstate :=
-  match init with
-  | Some (ssrc, seq0, off) => mkg (Some (enc_init max ssrc seq0)) off
-  | None => mkg None 0
-  end.
-
-(* ---- running the other models: generic in the glue instance and the decoder ---- *)
+(* ---- running the models: generic in the packetizer (life_step of Model/C23_RtpLife.v = initialize / initialize2 /
+   writeUnitInner) and in the decoder ---- *)
 Definition pobs_eqb (a b : pobs) : bool :=
   match a, b with
   | POk x, POk y => list_eqb bytes_eqb x y
@@ -128,37 +90,78 @@ Definition pobs_eqb (a b : pobs) : bool :=
   | _, _ => false
   end.
 
+(* the model state against the observed per-format state *)
+Definition gstate_eqb (max : Z) (g : gstate) (st : option (Z * Z * Z)) : bool :=
+  match g.(g_enc), st with
+  | None, None => true
+  | Some e, Some (ssrc, sq, off) =>
+      (e.(e_ssrc) =? ssrc) && (e.(e_seq) =? sq) && (g.(g_off) =? off)
+      && (e.(e_max) =? (if max =? 0 then 1450 else max))
+  | _, _ => false
+  end.
+
 Section Agree.
-  Variable gw : gstate -> Z -> list packet -> bool -> option (list bytes) -> gout.
+  Variable PL : Type.
+  Variable encode : enc -> PL -> res (list packet * enc) + enc.
+  Variable conv : list bytes -> PL.                  (* the delivered payload as the packetizer model wants it *)
   Variable D : Type.
-  Variable dstep : D -> packet -> D * pobs.
+  Variable dstep : D -> packet -> D * option pobs.   (* None = the decoder model left its domain: not compared *)
+  Variable max : Z.
+  Variable avail : bool.
+  Variable m : lmode.
 
   Fixpoint dec_agree_g (d : D) (pkts : list packet) (obs : list pobs) : bool * D :=
     match pkts, obs with
     | [], [] => (true, d)
     | p :: pr, o :: or =>
-        let '(d1, m) := dstep d p in
-        if pobs_eqb m o then dec_agree_g d1 pr or else (false, d1)
+        let '(d1, mo) := dstep d p in
+        match mo with
+        | Some mo' => if pobs_eqb mo' o then dec_agree_g d1 pr or else (false, d1)
+        | None => dec_agree_g d1 pr or
+        end
     | _, _ => (false, d)
     end.
 
-  Fixpoint agree_g (g : gstate) (d : D) (steps : list step) : bool :=
+  Fixpoint agree_l (s : lstate) (d : D) (steps : list step) : bool :=
     match steps with
     | [] => true
-    | Step pts inp decerr deliv _ r :: rest =>
-        match gw g pts inp decerr deliv, r with
-        | GPanic, SPanic => true
-        | GErr g', SErr => agree_g g' d rest
-        | GOk g' out, SOk out' obs =>
+    | NewSub use_rtp dec_ok first ptsoff r :: rest =>
+        let rnd := match r with NOk (Some t) => t | _ => (0, 0, 0) end in
+        match life_step PL encode max avail m s (ESub PL use_rtp dec_ok rnd first ptsoff), r with
+        | (s', RSub true), NOk st => gstate_eqb max s'.(l_g) st && (s'.(l_ptsoff) =? ptsoff) && agree_l s' d rest
+        | (s', RSub false), NErr => agree_l s' d rest
+        | _, _ => false
+        end
+    | Step ipts pts inp decerr deliv _ r :: rest =>
+        (life_pts m s.(l_ptsoff) ipts =? pts) &&
+        match life_step PL encode max avail m s (EUnit PL ipts inp decerr (option_map conv deliv)), r with
+        | (_, RPanic), SPanic => true
+        | (s', RErr), SErr => agree_l s' d rest
+        | (s', RPkts out), SOk out' obs =>
             list_eqb pkt_eqb out out' &&
-            match g'.(g_enc) with
-            | Some _ => let '(ok, d1) := dec_agree_g d out' obs in ok && agree_g g' d1 rest
-            | None => agree_g g' d rest
+            match s'.(l_g).(g_enc) with
+            | Some _ => let '(ok, d1) := dec_agree_g d out' obs in ok && agree_l s' d1 rest
+            | None => agree_l s' d rest
             end
         | _, _ => false
         end
     end.
 End Agree.
+
+(* H.264: the decoder model stops at the switch into Annex-B mode (None from then on) *)
+Definition pobs_of (o : dout) : option pobs :=
+  match o with
+  | DOk au => Some (POk au)
+  | DMore | DNoPrev => Some PMore          (* rtpDecoderH264.decode maps both to (nil, nil) *)
+  | DErr => Some PErr
+  | DAnnexB => None                        (* outside the model: comparison stops *)
+  end.
+Definition h264_dstep (d : option dec) (p : packet) : option dec * option pobs :=
+  match d with
+  | None => (None, None)
+  | Some d0 => let '(d1, mo) := decode d0 p in
+               match pobs_of mo with Some o => (Some d1, Some o) | None => (None, None) end
+  end.
 
 (* rtpDecoderH265.decode: ErrMorePacketsNeeded / ErrNonStartingPacketAndNoPrevious -> (nil, nil); an access unit
    without NAL units is a nil payload *)
@@ -171,30 +174,41 @@ Definition pobs_of5 (o : dout) : pobs :=
   end.
 Definition pobs_simple (o : dout) : pobs := match o with DOk l => POk l | DErr => PErr | _ => PMore end.
 
-Definition h265_agree (max : Z) (avail : bool) (g : gstate) (steps : list step) : bool :=
-  agree_g (fun g pts inp de dl => h265_glue_write max avail g pts inp de dl) dec5
-          (fun d p => let '(d1, o) := decode5 d p in (d1, pobs_of5 o)) g dec5_init steps.
-Definition opus_agree (max : Z) (avail : bool) (g : gstate) (steps : list step) : bool :=
-  agree_g (fun g pts inp de dl => opus_glue_write max avail g pts inp de dl) unit
-          (fun d p => (d, pobs_simple (simple_decode p))) g tt steps.
-(* the delivered G.711 / LPCM payload is one byte string *)
-Definition lpcm_agree (ss max : Z) (avail : bool) (g : gstate) (steps : list step) : bool :=
-  agree_g (fun g pts inp de dl => lpcm_glue_write ss max avail g pts inp de (option_map (@concat Z) dl)) unit
-          (fun d p => (d, pobs_simple (simple_decode p))) g tt steps.
+Definition init_g (max : Z) (init : option (Z * Z * Z)) : gstate :=
+  match init with
+  | Some (ssrc, seq0, off) => mkg (Some (enc_init max ssrc seq0)) off
+  | None => mkg None 0
+  end.
 
-Definition mismatch_scen (bits chans fmt max : Z) (avail : bool) (init : option (Z * Z * Z)) (steps : list step) : bool :=
-  if fmt =? 0 then negb (h264_agree max avail (init_g max init) (Some dec_init) steps)
-  else if fmt =? 1 then negb (h265_agree max avail (init_g max init) steps)
-  else if fmt =? 8 then negb (opus_agree max avail (init_g max init) steps)
+Definition h264_agree (max : Z) (avail : bool) (m : lmode) (s : lstate) (steps : list step) : bool :=
+  agree_l (list bytes) h264_enc_fn (fun x => x) (option dec) h264_dstep max avail m s (Some dec_init) steps.
+Definition h265_agree (max : Z) (avail : bool) (m : lmode) (s : lstate) (steps : list step) : bool :=
+  agree_l (list bytes) h265_encode (fun x => x) dec5
+          (fun d p => let '(d1, o) := decode5 d p in (d1, Some (pobs_of5 o))) max avail m s dec5_init steps.
+Definition opus_agree (max : Z) (avail : bool) (m : lmode) (s : lstate) (steps : list step) : bool :=
+  agree_l (list bytes) opus_encode (fun x => x) unit
+          (fun d p => (d, Some (pobs_simple (simple_decode p)))) max avail m s tt steps.
+(* the delivered G.711 / LPCM payload is one byte string *)
+Definition lpcm_agree (ss max : Z) (avail : bool) (m : lmode) (s : lstate) (steps : list step) : bool :=
+  agree_l bytes (lpcm_encode ss) (@concat Z) unit
+          (fun d p => (d, Some (pobs_simple (simple_decode p)))) max avail m s tt steps.
+
+Definition mismatch_life (m : lmode) (bits chans fmt max : Z) (avail : bool) (init : option (Z * Z * Z))
+    (steps : list step) : bool :=
+  let s := mkl (init_g max init) 0 in
+  if fmt =? 0 then negb (h264_agree max avail m s steps)
+  else if fmt =? 1 then negb (h265_agree max avail m s steps)
+  else if fmt =? 8 then negb (opus_agree max avail m s steps)
   else if (fmt =? 13) || (fmt =? 14)
-       then negb (lpcm_agree (lpcm_sample_size bits chans) max avail (init_g max init) steps)
+       then negb (lpcm_agree (lpcm_sample_size bits chans) max avail m s steps)
   else false.
 
 Definition mismatch (c : case) : bool :=
   match c with
   | CScen fmt max avail _ init steps =>
-      if fmt =? 0 then negb (h264_agree max avail (init_g max init) (Some dec_init) steps) else false
-  | CScenP bits chans fmt max avail _ init steps => mismatch_scen bits chans fmt max avail init steps
+      if fmt =? 0 then mismatch_life (mkmode false false) 0 0 fmt max avail init steps else false
+  | CScenP bits chans fmt max avail _ init steps => mismatch_life (mkmode false false) bits chans fmt max avail init steps
+  | CLife aa fr bits chans fmt max avail _ init steps => mismatch_life (mkmode aa fr) bits chans fmt max avail init steps
   | CConf _ => false
   end.
 
@@ -267,10 +281,30 @@ Definition roundtrip_ok (fmt : Z) (bytejoin : bool) (p : list bytes) (obs : list
        end.
 
 (* spec state: Some (ssrc, next sequence number, offset) once an encoder exists *)
-Definition spec_step (fmt max : Z) (avail bytejoin : bool) (st : option (Z * Z * Z)) (s : step)
+(* a new sub stream of the same Stream. The per-format state persists: once the server generates the packets of a
+   format it goes on doing so with the same encoder (SSRC, sequence numbers) and the same offset - the state is NOT
+   taken from the observation, so the units that follow are judged against the state of the earlier sub streams.
+   Without encoder so far: a non-RTP publisher, an always-available stream and a forced remux (H.264
+   packetization-mode 0) make the server generate the packets from now on (the encoder's random SSRC / first
+   sequence number / offset are taken as observed); a format without encoder makes the initialisation fail. *)
+Definition spec_sub (aa fr avail : bool) (st : option (Z * Z * Z)) (use_rtp dec_ok : bool) (r : nres)
+    : option (option (Z * Z * Z)) :=
+  if use_rtp && negb dec_ok then match r with NErr => Some st | NOk _ => None end
+  else
+    match st with
+    | Some _ => match r with NOk _ => Some st | NErr => None end
+    | None =>
+        if negb use_rtp || aa || fr then
+          if avail then match r with NOk (Some t) => Some (Some t) | _ => None end
+          else match r with NErr => Some None | NOk _ => None end
+        else match r with NOk o => Some o | NErr => None end
+    end.
+
+Definition spec_step (aa fr : bool) (fmt max : Z) (avail bytejoin : bool) (st : option (Z * Z * Z)) (s : step)
     : option (option (Z * Z * Z)) :=
   match s with
-  | Step pts inp decerr deliv deltas r =>
+  | NewSub use_rtp dec_ok _ _ r => spec_sub aa fr avail st use_rtp dec_ok r
+  | Step _ pts inp decerr deliv deltas r =>
       if match inp with [] => false | _ => decerr end
       then match r with SErr => Some st | _ => None end
       else
@@ -311,13 +345,14 @@ Definition spec_step (fmt max : Z) (avail bytejoin : bool) (st : option (Z * Z *
         end
   end.
 
-Fixpoint spec_run (fmt max : Z) (avail bytejoin : bool) (st : option (Z * Z * Z)) (steps : list step) : bool :=
+Fixpoint spec_run (aa fr : bool) (fmt max : Z) (avail bytejoin : bool) (st : option (Z * Z * Z))
+    (steps : list step) : bool :=
   match steps with
   | [] => false
   | s :: r =>
-      match spec_step fmt max avail bytejoin st s with
+      match spec_step aa fr fmt max avail bytejoin st s with
       | None => true
-      | Some st' => spec_run fmt max avail bytejoin st' r
+      | Some st' => spec_run aa fr fmt max avail bytejoin st' r
       end
   end.
 
@@ -329,8 +364,7 @@ Definition conf_ok (pr : Z * bool) : bool := let '(u, accepted) := pr in negb ac
 Definition spec_fail (c : case) : bool :=
   match c with
   | CScen fmt max avail bytejoin init steps
-  | CScenP _ _ fmt max avail bytejoin init steps =>
-      spec_run fmt max avail bytejoin
-               (match init with Some (ssrc, seq0, off) => Some (ssrc, seq0, off) | None => None end) steps
+  | CScenP _ _ fmt max avail bytejoin init steps => spec_run false false fmt max avail bytejoin init steps
+  | CLife aa fr _ _ fmt max avail bytejoin init steps => spec_run aa fr fmt max avail bytejoin init steps
   | CConf probes => negb (forallb conf_ok probes)
   end.
